@@ -198,9 +198,12 @@ func (r *envelopeReader) Read(env *envelope) *Error {
 		if connectErr, ok := asError(err); ok {
 			return connectErr
 		}
+		// The transport's error may wrap io.EOF (a connection that went away
+		// says so in more than one way): a stream that stopped inside a prefix
+		// must not read as one that ended.
 		return errorf(
 			CodeInvalidArgument,
-			"protocol error: incomplete envelope: %w", err,
+			"protocol error: incomplete envelope: %w", hideEOF(err),
 		)
 	}
 	size := int(binary.BigEndian.Uint32(prefixes[1:5]))
